@@ -40,3 +40,15 @@ def pruneFilter {β : Type} (relevant : Nat → Bool) (samples : List β) : List
   ((List.range samples.length).zip samples).filterMap (fun p => if relevant p.1 then some p.2 else none)
 
 end Opf
+
+namespace Opf
+
+/-- number of iterations `learn` executes when its successive validation accuracies are `accs`:
+after iteration `t` (1-based) it stops iff `|acc_t - acc_{t-1}| < 0.0001` (with `acc_0 = 0`) or `t = n_iterations`. -/
+def learnIterations (nIter : Nat) : Float → Nat → List Float → Nat
+  | _, t, [] => t
+  | prev, t, a :: rest =>
+    if Float.abs (a - prev) < 0.0001 || (t + 1 == nIter) then t + 1
+    else learnIterations nIter a (t + 1) rest
+
+end Opf
